@@ -30,6 +30,8 @@ func runC17(r *engine.Run) {
 	r.Rule("DOM-nodefound", "a node store reports a node as found only for what it holds: MemoryNodeDB.getNode returns a nil error only where its map lookup's found flag tested true; PNodeDB.GetNode decodes only where the fetched bytes tested non-empty (otherwise ErrNodeNotFound)")
 	r.Rule("ORDER-publish", "in insertForeignNode (the per-node step of MergeDB) the node enters the trie's cache and change collector only after PutNode returned a nil error (dominance + error fact): a failed store write is not masked by the cache")
 	r.Rule("WHO-tombstones", "see C03: the layered store's lookups and iteration never consult its delete tombstones (a donor that hides marked nodes from Iterate cannot repair the tries that need them)")
+	r.Rule("DOM-prevlevel", "LevelNodeDB.getNode hands back the current level's miss only where prev == current tested true: whenever the store has a distinct previous level that level's answer is the answer, for every kind of current level")
+	r.Rule("DOM-fullwalk", "the iterate functions of the node stores leave their loop only at the end of the collection or with a non-nil error: no edge out of the loop body leads to a nil return (a partial walk reported as complete makes MergeState report a partial repair as success)")
 	r.Rule("DOM-survey", "the recursive survey behind GetAllMissingNodes (the trie method handed the *[]Key list) asks the store for the node of the key it is handed before it can return: every return is dominated by the getNode lookup of that key (no depth cut-off, filter or early return in front of it), and it recurses for the extension child and the branch children")
 	r.NotDec = append(r.NotDec, "exactness of the reported key set for every removal subset")
 	errGetNode(r)
@@ -51,6 +53,8 @@ func runC17(r *engine.Run) {
 	whoLimit(r, "WHO-limit")
 	whoTombstones(r, "WHO-tombstones")
 	domSurvey(r, "DOM-survey")
+	domPrevLevel(r, "DOM-prevlevel")
+	domFullWalk(r, "DOM-fullwalk")
 }
 
 // resultValue resolves the i-th result of ret through a named-result cell
